@@ -405,6 +405,12 @@ def run_readonly(spec, out):
                     ("removedir", lambda: view.removedir(k_dir)),
                     ("removedir_recursive", lambda: view.removedir(k_dir, recursive=True)),
                     ("makedir", lambda: view.makedir(k_new)),
+                    ("makedir_existing", lambda: view.makedir(k_dir)),
+                    ("makedir_root", lambda: view.makedir("")),
+                    ("store_metadata_dir", lambda: view.store_metadata(k_dir, {"x": 1})),
+                    ("store_metadata_new", lambda: view.store_metadata(k_new, {"x": 1})),
+                    ("remove_absent", lambda: view.remove(k_new)),
+                    ("removedir_absent", lambda: view.removedir(k_new)),
                     ("openbin_w", lambda: _write_through(view, k_new)),
                     ("openbin_wb_existing", lambda: _write_through(view, k_file, "wb")),
                     ("openbin_update_existing", lambda: _write_through(view, k_file, rnd_mode())),
